@@ -116,9 +116,21 @@ fn replay(case: &Value) -> Value {
     }
 }
 
+
+/// One writer event; a panic inside the library call is data, not a harness failure.
+fn event<F: FnOnce() -> Value>(name: &str, v: u64, f: F) -> Value {
+    let mut e = guarded(f);
+    if e.get("outcome").is_some() {
+        e["ev"] = json!(name);
+        e["v"] = bv(v, 8);
+    }
+    e
+}
+
 /// Writers: one event per primitive write with the value, the bytes produced and
 /// the size the library reports for it.
 fn record(out: &str, a: &Args) {
+    install_quiet_hook();
     let mut rng = Rng::new(a.num("--seed", 1));
     let n = a.num("--n", 2000);
     let all16 = a.num("--all16", 0) == 1;
@@ -143,56 +155,72 @@ fn record(out: &str, a: &Args) {
     for (vi, v) in vals.into_iter().enumerate() {
         let small = vi < n16;
         // LEB128 writers through the Writer trait, the Leb128 struct, the size functions
-        let mut w = EndianVec::new(RunTimeEndian::Little);
-        let r = w.write_uleb128(v);
-        evs.push(json!({"ev":"WriteULeb","v":bv(v,8),"ok":r.is_ok(),"bytes":bytes_json(w.slice()),
-            "size":gimli::leb128::write::uleb128_size(v),
-            "sbytes":bytes_json(gimli::leb128::write::Leb128::unsigned(v).bytes())}));
-        let mut w = EndianVec::new(RunTimeEndian::Little);
-        let r = w.write_sleb128(v as i64);
-        evs.push(json!({"ev":"WriteSLeb","v":bv(v,8),"ok":r.is_ok(),"bytes":bytes_json(w.slice()),
-            "size":gimli::leb128::write::sleb128_size(v as i64),
-            "sbytes":bytes_json(gimli::leb128::write::Leb128::signed(v as i64).bytes())}));
+        evs.push(event("WriteULeb", v, || {
+            let mut w = EndianVec::new(RunTimeEndian::Little);
+            let r = w.write_uleb128(v);
+            json!({"ev":"WriteULeb","v":bv(v,8),"ok":r.is_ok(),"bytes":bytes_json(w.slice()),
+                "size":gimli::leb128::write::uleb128_size(v),
+                "sbytes":bytes_json(gimli::leb128::write::Leb128::unsigned(v).bytes())})
+        }));
+        evs.push(event("WriteSLeb", v, || {
+            let mut w = EndianVec::new(RunTimeEndian::Little);
+            let r = w.write_sleb128(v as i64);
+            json!({"ev":"WriteSLeb","v":bv(v,8),"ok":r.is_ok(),"bytes":bytes_json(w.slice()),
+                "size":gimli::leb128::write::sleb128_size(v as i64),
+                "sbytes":bytes_json(gimli::leb128::write::Leb128::signed(v as i64).bytes())})
+        }));
         // std::io::Write based free functions
-        let mut buf: Vec<u8> = Vec::new();
-        let r = gimli::leb128::write::unsigned(&mut buf, v);
-        evs.push(json!({"ev":"WriteULeb","v":bv(v,8),"ok":r.is_ok(),"bytes":bytes_json(&buf),
-            "size":r.unwrap_or(usize::MAX),"sbytes":bytes_json(&buf)}));
-        let mut buf: Vec<u8> = Vec::new();
-        let r = gimli::leb128::write::signed(&mut buf, v as i64);
-        evs.push(json!({"ev":"WriteSLeb","v":bv(v,8),"ok":r.is_ok(),"bytes":bytes_json(&buf),
-            "size":r.unwrap_or(usize::MAX),"sbytes":bytes_json(&buf)}));
+        evs.push(event("WriteULeb", v, || {
+            let mut buf: Vec<u8> = Vec::new();
+            let r = gimli::leb128::write::unsigned(&mut buf, v);
+            json!({"ev":"WriteULeb","v":bv(v,8),"ok":r.is_ok(),"bytes":bytes_json(&buf),
+                "size":r.unwrap_or(usize::MAX),"sbytes":bytes_json(&buf)})
+        }));
+        evs.push(event("WriteSLeb", v, || {
+            let mut buf: Vec<u8> = Vec::new();
+            let r = gimli::leb128::write::signed(&mut buf, v as i64);
+            json!({"ev":"WriteSLeb","v":bv(v,8),"ok":r.is_ok(),"bytes":bytes_json(&buf),
+                "size":r.unwrap_or(usize::MAX),"sbytes":bytes_json(&buf)})
+        }));
         // fixed-size data in both byte orders
         for le in [true, false] {
             let sizes: &[u8] = if small { &[2] } else { &[1, 2, 4, 8, 0, 3, 16] };
             for &size in sizes {
-                let mut w = EndianVec::new(endian(le));
-                let r = w.write_udata(v, size);
-                evs.push(json!({"ev":"WriteUData","v":bv(v,8),"size":size,"le":le,"ok":r.is_ok(),"bytes":bytes_json(w.slice())}));
-                let mut w = EndianVec::new(endian(le));
-                let r = w.write_sdata(v as i64, size);
-                evs.push(json!({"ev":"WriteSData","v":bv(v,8),"size":size,"le":le,"ok":r.is_ok(),"bytes":bytes_json(w.slice())}));
+                evs.push(event("WriteUData", v, || {
+                    let mut w = EndianVec::new(endian(le));
+                    let r = w.write_udata(v, size);
+                    json!({"ev":"WriteUData","v":bv(v,8),"size":size,"le":le,"ok":r.is_ok(),"bytes":bytes_json(w.slice())})
+                }));
+                evs.push(event("WriteSData", v, || {
+                    let mut w = EndianVec::new(endian(le));
+                    let r = w.write_sdata(v as i64, size);
+                    json!({"ev":"WriteSData","v":bv(v,8),"size":size,"le":le,"ok":r.is_ok(),"bytes":bytes_json(w.slice())})
+                }));
                 // write at an offset into a pre-filled buffer
-                let mut w = EndianVec::new(endian(le));
-                w.write(&[0xee; 12]).unwrap();
-                let r = w.write_udata_at(2, v, size);
-                evs.push(json!({"ev":"WriteUDataAt","v":bv(v,8),"size":size,"le":le,"ok":r.is_ok(),"off":2,"bytes":bytes_json(w.slice())}));
+                evs.push(event("WriteUDataAt", v, || {
+                    let mut w = EndianVec::new(endian(le));
+                    w.write(&[0xee; 12]).unwrap();
+                    let r = w.write_udata_at(2, v, size);
+                    json!({"ev":"WriteUDataAt","v":bv(v,8),"size":size,"le":le,"ok":r.is_ok(),"off":2,"bytes":bytes_json(w.slice())})
+                }));
             }
             // initial length: placeholder then patched; then read back by the real reader
             if small {
                 continue;
             }
             for f in [Format::Dwarf32, Format::Dwarf64] {
-                let mut w = EndianVec::new(endian(le));
-                let off = w.write_initial_length(f).unwrap();
-                let r = w.write_initial_length_at(off, v, f);
-                let mut rd = EndianSlice::new(w.slice(), endian(le));
-                let back = match rd.read_initial_length() {
-                    Ok((l, ff)) => json!({"ok":true,"v":bv(l as u64,8),"fmt": if ff == Format::Dwarf64 {64} else {32}, "n": w.slice().len() - rd.len()}),
-                    Err(_) => json!({"ok":false}),
-                };
-                evs.push(json!({"ev":"WriteInitialLength","v":bv(v,8),"fmt": if f == Format::Dwarf64 {64} else {32},"le":le,
-                    "ok":r.is_ok(),"bytes":bytes_json(w.slice()),"back":back}));
+                evs.push(event("WriteInitialLength", v, || {
+                    let mut w = EndianVec::new(endian(le));
+                    let off = w.write_initial_length(f).unwrap();
+                    let r = w.write_initial_length_at(off, v, f);
+                    let mut rd = EndianSlice::new(w.slice(), endian(le));
+                    let back = match rd.read_initial_length() {
+                        Ok((l, ff)) => json!({"ok":true,"v":bv(l as u64,8),"fmt": if ff == Format::Dwarf64 {64} else {32}, "n": w.slice().len() - rd.len()}),
+                        Err(_) => json!({"ok":false}),
+                    };
+                    json!({"ev":"WriteInitialLength","v":bv(v,8),"fmt": if f == Format::Dwarf64 {64} else {32},"le":le,
+                        "ok":r.is_ok(),"bytes":bytes_json(w.slice()),"back":back})
+                }));
             }
         }
     }
